@@ -737,6 +737,9 @@ def rule_pal_newton(ctx):
 
 
 def run(ctx):
+    from . import pyrules
+    pyrules.rule_thin_wrappers(ctx, 'R11.12')      # anomaly conversions of the Python front end are the C ones
+    pyrules.rule_wrapper_state(ctx, 'R18.10')      # particles are built from the live C state, not from values remembered on the Python object
     rule_pal_newton(ctx)
     rule_mass_guard_agreement(ctx)
     rule_angle_range(ctx)
